@@ -44,7 +44,9 @@ func genValidRecord(r *rand.Rand) genRecord {
 		g.rt = 0 // unknown record type
 	}
 	g.body = []byte(body)
-	g.fields = append(g.fields, [2]string{"WARC-Date", "2021-05-06T07:08:09Z"})
+	// a date given as text: canonical mostly, sometimes with a fraction or a numeric offset
+	g.fields = append(g.fields, [2]string{"WARC-Date", pick(r, []string{"2021-05-06T07:08:09Z", "2021-05-06T07:08:09Z", "2021-05-06T07:08:09Z",
+		"2021-05-06T07:08:09.123Z", "2021-05-06T09:08:09+02:00", "2021-05-06T07:08:09.000000001Z"})})
 	g.fields = append(g.fields, [2]string{"Content-Type", ctype})
 	if g.rt == 0 {
 		if lateType != "" {
